@@ -21,14 +21,21 @@ def handleFuncOptsF (s : St) (expShape : Shape) (col : Bool) (o : Opts) : Res (S
     let r := if !incr && r.ap.o.col != col then { r with ap := { r.ap with o := { r.ap.o with col := !r.ap.o.col } } } else r
     pure (s, { reuse := some r, safe := !o.unsafe_, toReuse := true, incr := incr, same := o.same })
 
-/-- `Float64Engine.Add` / `Float32Engine.Add` -/
+/-- `Float64Engine.Add` / `Float32Engine.Add`: the raw-storage fast path is taken only for contiguous
+    operands of the same shape and data order (and a contiguous destination of that order); everything
+    else is handed to the embedded default engine. -/
 def engFloatAdd (s : St) (e : Eng) (a b : Dense) (o : Opts) : Res EngOut := do
-  if a.requiresIterator || b.requiresIterator then engArithVV s "add" numberTypes a b o else
+  if a.requiresIterator || b.requiresIterator || !shapeEq a.shape b.shape then engArithVV s "add" numberTypes a b o else
   let (s, fo) ← handleFuncOptsF s a.shape a.ap.o.col o
   -- checkThree
   if a.dt != engDt e then throwErr "Expected a to be of the engine's float type"
   if a.dt != b.dt then throwErr "dtype mismatch"
   (match fo.reuse with | some r => if r.dt != b.dt then throwErr "dtype mismatch reuse" else pure () | none => pure ())
+  -- `useIter` of `prepDataVV` (neither operand needs an iterator here)
+  let useIter := (match fo.reuse with | some r => r.requiresIterator | none => false) || !sameOrd a b ||
+    (match fo.reuse with | some r => !sameOrd a r || !sameOrd b r | none => false)
+  -- `e.StdEng.Add(a, b, opts...)`: the reuse tensor is the one `handleFuncOptsF` has already touched
+  if useIter then engArithVV s "add" numberTypes a b (if fo.incr then o else { o with reuse := fo.reuse }) else
   let f : BinF := fun x y => .app2 "add" x y
   match fo.incr, fo.reuse with
   | true, some r =>
@@ -51,6 +58,8 @@ def engFloatAdd (s : St) (e : Eng) (a b : Dense) (o : Opts) : Res EngOut := do
 def engFloatFMA (s : St) (e : Eng) (a x y : Dense) : Res EngOut := do
   if a.dt != engDt e then throwErr "Expected a to be of the engine's float type"
   if a.dt != x.dt || x.dt != y.dt then throwErr "dtype mismatch"
+  if !shapeEq a.shape x.shape then throwErr "shapeMismatch"
+  if totalSize y.shape != totalSize a.shape then throwErr "shapeMismatch reuse"
   let f : BinF := fun p q => .app2 "mul" p q
   let useIter := a.requiresIterator || x.requiresIterator || y.requiresIterator || !sameOrd a x ||
     !sameOrd a y || !sameOrd x y
@@ -65,10 +74,11 @@ def engFloatFMA (s : St) (e : Eng) (a x y : Dense) : Res EngOut := do
 def engFloatFMAScalar (s : St) (e : Eng) (a : Dense) (x : ScalarArg) (y : Dense) : Res EngOut := do
   if a.dt != engDt e then throwErr "Expected a to be of the engine's float type"
   if y.dt != a.dt then throwErr "dtype mismatch reuse"
+  if totalSize y.shape != totalSize a.shape then throwErr "shapeMismatch reuse"
   if x.dt != engDt e then throwErr "b is not a float of the engine's type"
   let x0 ← s.rd x.win 1 0
   let f : BinF := fun p q => .app2 "mul" p q
-  if a.requiresIterator || y.requiresIterator then
+  if a.requiresIterator || y.requiresIterator || !sameOrd y a then
     let s ← kIter3VS s a.win x0 y.win f accAdd (← a.itStream s) (← y.itStream s)
     pure ⟨s, some y, .reuse⟩
   else
@@ -121,30 +131,23 @@ def enginesStepM (ps : PState) (_i : Nat) (toks : List String) : PState × StepO
     | _, _ => (ps.failVar, .fields "r=skip")
   | _ => (ps, .fields "r=badprog")
 
-/-- F37: the specialised engines' `Add` / `FMA` skip `binaryCheck`: operands of different shapes or
-    data orders are not refused on the contiguous path (raw storage is combined). -/
+/-- tags of the default engine's findings on the steps of this family (the specialised engines share
+    them: they run the default engine's code, or code with the same behaviour, in those regions) -/
 def enginesExcl (ps : PState) (toks : List String) : List String × Bool :=
   let objs := toks.filterMap (fun t => (ps.obj t).map (·.2))
   match toks.head?, objs with
   | some "eadd", a :: b :: _ =>
-    let mism := a.eng != .std && !(a.requiresIterator || b.requiresIterator) &&
-      (!shapeEq a.shape b.shape || a.ap.o.col != b.ap.o.col)
     let reuse := (toks.find? (·.startsWith "reuse=")).bind (fun t => (ps.obj (t.drop 6).toString).map (·.2))
-    -- the incr destination's data order is not looked at either (its raw storage is incremented)
     let incrD := (toks.find? (·.startsWith "incr=")).bind (fun t => (ps.obj (t.drop 5).toString).map (·.2))
-    let mism := mism || (a.eng != .std && !(a.requiresIterator || b.requiresIterator) &&
-      (match incrD with | some d => d.ap.o.col != a.ap.o.col && a.win.len != 1 | none => false))
     -- F32: the default engine's incr mode on one-element operands clobbers the first operand
     let f32 := a.eng == .std && incrD.isSome && a.win.len == 1 && b.win.len == 1
-    ((if mism then ["F37"] else []) ++ (if Excl_reuseOrderFlip a reuse then ["F35"] else []) ++
-     (if f32 then ["F32"] else []), true)
-  | some "fma", a :: rest =>
-    let mism := a.eng != .std && rest.any (fun t => !shapeEq a.shape t.shape || t.ap.o.col != a.ap.o.col)
+    ((if Excl_reuseOrderFlip a reuse then ["F35"] else []) ++ (if f32 then ["F32"] else []), true)
+  | some "fma", a :: _ =>
     -- F32: the default engine's FMA is Mul with WithIncr: one-element operands clobber the first operand
     let xOne := match toks[2]? with
       | some x => x.startsWith "#" || (match ps.obj x with | some (_, d) => d.win.len == 1 | none => false)
       | none => false
-    ((if mism then ["F37"] else []) ++ (if a.eng == .std && a.win.len == 1 && xOne then ["F32"] else []), true)
+    ((if a.eng == .std && a.win.len == 1 && xOne then ["F32"] else []), true)
   | _, _ => ([], false)
 
 /-- S: the specialised engines must deliver what the default engine delivers: `a + b`, `y += a*x`. -/
